@@ -133,6 +133,10 @@ impl<'a> RequireConverter<'a> {
         if let Some(require_path) = self.current.find_require(call, self.context)? {
             log::trace!("found require path `{}`", require_path.display());
 
+            // the new require is computed from where the file was found: when that file
+            // goes away, what is written for the current file is no longer right
+            self.context.add_file_dependency(require_path.clone());
+
             if let Some(new_arguments) =
                 self.target
                     .generate_require(&require_path, &self.current, self.context)?
